@@ -999,6 +999,23 @@ theorem tb_interpolate_old_alias_fails :
   · simp [tbInterpolate, tbGeo, tbGeodesic, tbPick, geodesicInterpolateIdx, sumsOf, failingAtlas,
       natArith, lineAmb]
 
+/-- a one-chart tangent bundle on the number line where state 2 is invalid -/
+def lineTB : AtlasOracle Unit Nat Nat Unit Nat :=
+  { lineAtlas with
+    valid := fun _ x => (x != 2, ()),
+    uClose := fun _ ub uj => ((if uj ≤ ub then ub - uj else uj - ub) ≤ 1, ()) }
+
+/-- **F175, kernel-checked witness**: the TangentBundle traversal validates the *previous* state in
+every iteration, never the one it is about to store — `0 → 3` stores `[0, 1, 2]` and reports success
+with `interpolate = false` although `isValid(2)` is false: the state that ends the traversal is never
+handed to `isValid`. -/
+theorem tb_geodesic_last_state_unvalidated :
+    (tbGeodesic natArith lineAmb lineTB ⟨1, 3, 5, 0, 1, 200⟩ (fun _ => true) 10 () 0 3 false).states = some [0, 1, 2] ∧
+    (tbGeodesic natArith lineAmb lineTB ⟨1, 3, 5, 0, 1, 200⟩ (fun _ => true) 10 () 0 3 false).ok = true ∧
+    (lineTB.valid () 2).1 = false := by
+  refine ⟨?_, ?_, rfl⟩ <;>
+    simp [tbGeodesic, tbLoop, tbStep, validOrSkip, tbNeedsProjection, lineTB, lineAtlas, failingAtlas, natArith, lineAmb]
+
 /-- the picks that the comment in the source describes as "the closer of the two adjacent states"
 are in fact the first stored state *past* `t` (F15): on `[0, 1, 2]`, `t = 0` picks index 1, not
 `from`; exercised, not a manifold matter. -/
